@@ -33,6 +33,16 @@ REPLAY_SRC = r'''
 using namespace vpsc;
 int main() {
   int bad = 0;
+  // rectangles named as fixed stay put when nothing pushes them: alone, or apart from the others (0, 1, 2 other rectangles)
+  for (int others = 0; others <= 2; ++others) for (int third = 0; third < 2; ++third) {
+    Rectangles frs; frs.push_back(new Rectangle(90, 110, 40, 50));
+    for (int k = 0; k < others; ++k) frs.push_back(new Rectangle(300 + 50 * k, 320 + 50 * k, 200, 210));
+    std::set<unsigned> ffixed; ffixed.insert(0);
+    removeoverlaps(frs, ffixed, third != 0);
+    if (std::fabs(frs[0]->getCentreX() - 100) > 0.15 || std::fabs(frs[0]->getCentreY() - 45) > 0.15) {
+      printf("a fixed rectangle with nothing overlapping it (%d other rectangle(s), thirdPass=%d) moved from (100,45) to (%g,%g)\n", others, third, frs[0]->getCentreX(), frs[0]->getCentreY()); bad++; }
+    for (size_t k = 0; k < frs.size(); ++k) delete frs[k];
+  }
   const double B[4][2] = {{0, 0}, {2, 3}, {0.5, 0.25}, {0, 0}};
   const double R[6][4] = {{0,10,0,10},{5,15,5,15},{5,15,0,10},{20,30,0,10},{22,28,2,8},{0,10,0,10}};
   for (int round = 0; round < 4; ++round) {
@@ -192,6 +202,58 @@ def jobs(tier):
                       flags=["--no-malloc-may-fail"], replay=replay_c09,
                       domain="every closing node with or without a neighbour above/below, any rectangle sizes; plain harness",
                       expect=[r'h_close_event\.assertion']))
+    # ---- the head of generateX/YConstraints: every variable's desired position becomes its rectangle's current centre.
+    # removeoverlaps creates its variables at position 0 (weight 10000 for fixed rectangles) and relies on this for "rectangles stay where
+    # they are unless pushed" -- in particular for the fixed ones.  Loop shell (every index visited, in every call) + projected loop body.
+    ndp = len(re.findall(r'\bdesiredPosition\b', strip_comments(read_repo(RC))))
+    if ndp != 2:
+        raise Undecided("C09: rectangle.cpp now mentions desiredPosition %d time(s) (expected once in generateXConstraints, once in generateYConstraints): "
+                        "the projection of the loop bodies onto that statement needs re-anchoring" % ndp)
+    S["evtype"] = slice_lines(RC, r'^typedef enum \{Open, Close\} EventType;', 1, "EventType")
+    S["event"] = slice_block(RC, r'^struct Event \{', "struct Event")
+    cshim = ("    double getCentreX() const { return w_centre((void *)this, 0); }\n    double getCentreY() const { return w_centre((void *)this, 1); }\n")
+    hx = fragment_between(gx, r'const unsigned n = rs\.size\(\);', r'qsort\(', "generateXConstraints [head: up to the sort]", allow_return=True)
+    hy = fragment_between(gy, r'const unsigned n = rs\.size\(\);', r'qsort\(', "generateYConstraints [head: up to the sort]", allow_return=True)
+    _, bx = fragment_loop(hx, r'for\(i=0;i<n;i\+\+\)', "generateXConstraints [first loop body]")
+    _, by = fragment_loop(hy, r'for\(;ri!=re&&vi!=ve;\+\+ri,\+\+vi\)', "generateYConstraints [first loop body]")
+    pbx = project_statements(bx, r'\bdesiredPosition\b', "generateXConstraints [first loop body, projected onto the desiredPosition statement]")
+    pby = project_statements(by, r'\bdesiredPosition\b|^\s*Rectangle\* r=\*ri;|^\s*Variable\* v=\*vi;', "generateYConstraints [first loop body, projected]")
+    hd_base = (base + 'extern "C" { double w_centre(void *r, int dim); void w_head_visit(void *a, void *b, unsigned long i); void *malloc(size_t); void *verif_g_rs, *verif_g_vars; }\n' +
+               c01.EXTERN + vp + rect_pre.replace("@RECT_INLINES@", cshim) + node_pre + "namespace vpsc {\n" + S["evtype"].text + "\n" + S["event"].text + "\n}\n")
+    for nm, hd, body, pb, visit in (("x", hx, bx, pbx, "{ w_head_visit((void *)0, (void *)0, i); }"), ("y", hy, by, pby, "{ w_head_visit((void *)ri, (void *)vi, 0); }")):
+        if hd.text.count(body.text) != 1:
+            raise Undecided("C09: first loop body of generate%sConstraints not found exactly once in the head fragment" % nm.upper())
+        htext = hd.text.replace(body.text, visit)
+        hsl = Slice(hd.name + " [loop body replaced by a counting visit]", hd.rel, htext, hd.line, kind="head-fragment")
+        htext = subst(hsl, [(r'new Event\*\[2\*n\]', '(Event **)malloc(sizeof(Event *) * 2 * n)', 1)])
+        sh_cxx = (hd_base + "namespace vpsc {\nvoid verif_head()\n{ const Rectangles& rs = *(const Rectangles *)verif_g_rs; const Variables& vars = *(const Variables *)verif_g_vars;\n" +
+                  htext + "\n}\n}\n" 'extern "C" void w_head(void *rs, void *vars) { verif_g_rs = rs; verif_g_vars = vars; vpsc::verif_head(); }\n')
+        RSV = "((struct{void*d;unsigned long n;unsigned long cap;}__attribute__((packed))*)verif_g_rs)"
+        VAV = "((struct{void*d;unsigned long n;unsigned long cap;}__attribute__((packed))*)verif_g_vars)"
+        if nm == "x":
+            lc = loop_contract("vpsc::verif_head()", 0, "i <= n && verif_visited == i", "i, verif_visited", "n - i", {"i": "1::i", "n": "1::n"})
+        else:
+            lc = loop_contract("vpsc::verif_head()", 0,
+                               ("verif_visited <= {R}->n && verif_visited <= {V}->n && __CPROVER_same_object(ri, {R}->d) && __CPROVER_same_object(vi, {V}->d) && "
+                                "(char *)ri == (char *){R}->d + 8 * verif_visited && (char *)vi == (char *){V}->d + 8 * verif_visited").replace("{R}", RSV).replace("{V}", VAV),
+                               "ri, vi, verif_visited", "%s->n - verif_visited" % RSV, {"ri": "1::ri", "vi": "1::vi"})
+        js.append(Job("desired_position_shell_" + nm, "U", spec, "h_head", cxx=sh_cxx, enforce="w_head", replace=["w_head_visit"], defines=["JOB_head_shell", "HEAD_%s" % nm.upper()],
+                      slices=[gx if nm == "x" else gy, hd, body], flags=["--object-bits", "12", "--sat-solver", "cadical"], backend="sat:cadical", replay=replay_c09,
+                      loops=loops_file([lc]), domain="every number of rectangles up to 10^6 (including 0 and 1), at least as many variables",
+                      expect=[r'w_head\.postcondition', r'loop_invariant_base', r'loop_invariant_step', r'loop_decreases', r'precondition']))
+        if nm == "x":
+            bfn = "static void verif_head_body(const Rectangles& rs, const Variables& vars, unsigned i)\n{\n" + pb.text + "\n}\n"
+            bwr = 'extern "C" void w_head_body(void *rs, void *vars, unsigned long i) { vpsc::verif_head_body(*(const vpsc::Rectangles *)rs, *(const vpsc::Variables *)vars, (unsigned)i); }\n'
+        else:
+            bfn = "static void verif_head_body(Rectangles::const_iterator ri, Variables::const_iterator vi)\n{\n" + pb.text + "\n}\n"
+            bwr = ('extern "C" void w_head_body(void *rs, void *vars, unsigned long i) { vpsc::verif_head_body(((const vpsc::Rectangles *)rs)->begin() + i, '
+                   '((const vpsc::Variables *)vars)->begin() + i); }\n')
+        js.append(Job("desired_position_body_" + nm, "U", spec, "h_head_body", cxx=hd_base + "namespace vpsc {\n" + bfn + "}\n" + bwr, enforce="w_head_body", replace=["w_centre"],
+                      defines=["JOB_head_body", "HEAD_%s" % nm.upper()], slices=[gx if nm == "x" else gy, body, pb], flags=["--object-bits", "12", "--sat-solver", "cadical"],
+                      backend="sat:cadical", replay=replay_c09,
+                      domain="one arbitrary index, every centre (all doubles, through an uninterpreted getCentreX/Y); projection of the loop body onto its desiredPosition statement "
+                             "(%d statement(s) kept; premise checked every run: rectangle.cpp writes desiredPosition nowhere else)" % pb.kept_statements,
+                      expect=[r'w_head_body\.postcondition']))
     return js
 
 
@@ -207,8 +269,11 @@ TRUSTED = [
 ASSUMPTIONS = [
     "borders_restored covers the normal path only: on an exception path removeoverlaps does NOT restore the borders (its catch(char*) neither matches UnsatisfiedConstraint nor resets them) -- recorded observation",
     "real-valued inputs near a rounding edge are outside the size/separation claims (observation: two 1-ulp-wide rectangles touching at 1e6 get a 2-ulp overlapX)",
-    "NOT decided (residue, the headline): the scan line emits a constraint or chain for EVERY overlapping pair; acyclicity of the generated sets; fixed rectangles barely move; hence 'no two rectangles overlap'",
+    "fixed rectangles: only the link 'generateX/YConstraints sets EVERY variable's desired position to its rectangle's current centre, in every call' is under contract "
+    "(loop shells for any number of rectangles + projected loop bodies); that weight 10000 then keeps a fixed rectangle within 1% is solver optimality (C02) and not decided",
+    "NOT decided (residue, the headline): the scan line emits a constraint or chain for EVERY overlapping pair; acyclicity of the generated sets; hence 'no two rectangles overlap'",
 ]
 EXPLANATION = ("Contracts on the real vpsc::Rectangle inline members and on fragments of generateX/YConstraints and removeoverlaps: moving a rectangle keeps width, height and the other "
                "axis and puts it where asked; overlapX/Y > 0 iff the open extents intersect; any placement satisfying a generated separation (each of the six `sep` expressions) "
-               "separates that pair; removeoverlaps restores the border statics (two calls under different borders, bitwise).")
+               "separates that pair; removeoverlaps restores the border statics (two calls under different borders, bitwise); generateX/YConstraints set every variable's desired "
+               "position to its rectangle's current centre (any number of rectangles).")
